@@ -60,6 +60,20 @@ impl CompileState<'_> {
             return Err(self.err(err));
         }
 
+        // Every field of the definition must be given, either explicitly or through
+        // a `...source`; a missing field would only be noticed when it is read.
+        if let Some(missing) = struct_def.iter().find(|def_field| {
+            !s.fields
+                .iter()
+                .any(|(name, _)| name.inner == def_field.identifier.inner)
+        }) {
+            let note = format!(
+                "field `{}` of `Struct {}` is missing",
+                missing.identifier.inner, s.identifier
+            );
+            return Err(self.err(NotDefined(note, s.identifier.span)));
+        }
+
         let mut fields = Vec::new();
         for (field_name, e) in &s.fields {
             let def_field = &struct_def
